@@ -93,7 +93,9 @@ fn apply_bend(name: &str, ch: &Choices, rng: &mut Xoshiro, spec: &mut FrameSpec,
     let with_lpc = (0..nsub).map(|k| (si + k) % nsub).find(|&k| matches!(spec.subs[k].body, SubSpec::Lpc { .. }));
     match name {
         "sub_type_reserved" => {
-            spec.subs[si].bend.type_code = Some(*ch.pick("bent.type", &[2u8, 3, 4, 5, 6, 7, 13, 14, 15, 16, 20, 31]));
+            // every reserved 6-bit type code: 000010-000111 and 001101-011111
+            let reserved: Vec<u8> = (2u8..=7).chain(13..=31).collect();
+            spec.subs[si].bend.type_code = Some(*ch.pick("bent.type", &reserved));
         }
         "sub_pad_bit" => spec.subs[si].bend.pad_bit = Some(1),
         "wasted_ge_bits" => {
